@@ -128,7 +128,7 @@ func doGC(c *kit.Ctx, x gcCase) {
 	in := fmt.Sprintf("(mkGc %s %s %s %s)", kit.GOpt(!x.ClaimsFail, gclaims), kit.GOpt(!x.ProviderFail, ginsts), gnodes, kit.GStrs(x.NodeFail))
 
 	// --- branch table
-	nontrivial := false
+	nontrivial, termDeleted := false, false
 	switch {
 	case x.ClaimsFail:
 		c.Count("gc:claims-list-failed")
@@ -160,6 +160,9 @@ func doGC(c *kit.Ctx, x gcCase) {
 			}
 			nontrivial = true
 			if term[cl.PID] {
+				if _, ok := delResp[cl.Name]; ok {
+					termDeleted = true
+				}
 				c.Count("gc:candidate-listed-terminating")
 			} else {
 				c.Count("gc:candidate-not-listed")
@@ -197,8 +200,12 @@ func doGC(c *kit.Ctx, x gcCase) {
 	if nontrivial {
 		key = "G:" + in
 	}
-	c.AddCase(fmt.Sprintf("CaseG %s %s %s", in, kit.GStrs(deleted), resClass(false, res.RequeueAfter, err)),
-		J{"reaper": "gc", "case": x}, key)
+	j := J{"reaper": "gc", "case": x}
+	if termDeleted {
+		// reading note of Properties/C16.v: a listed but terminating instance counts as not listed
+		j["kf_key"] = "gc-terminating-instance-counts-as-unlisted"
+	}
+	c.AddCase(fmt.Sprintf("CaseG %s %s %s", in, kit.GStrs(deleted), resClass(false, res.RequeueAfter, err)), j, key)
 }
 
 func runGC(c *kit.Ctx) {
